@@ -2,6 +2,7 @@
 package main
 
 import (
+	"os/exec"
 	"crypto/sha256"
 	"encoding/json"
 	"flag"
@@ -695,14 +696,23 @@ func report(cfg *Config, results []*HarnessResult, files, pats []string, loadS, 
 				if k := isKnown(r.Name, l); k != nil {
 					if !knownPrinted[r.Name+"|"+l] {
 						knownPrinted[r.Name+"|"+l] = true
-						lines = append(lines, fmt.Sprintf("KNOWN-FINDING: property=%s %s [%s/%s, %d path instance(s)]", cfg.prop, k.What, r.Name, l, st.Sat))
+						kp := saveCex(cfg, cexDir, r, st)
+						lines = append(lines, fmt.Sprintf("KNOWN-FINDING: property=%s %s [%s/%s, %d path instance(s); counterexample %s]", cfg.prop, k.What, r.Name, l, st.Sat, kp))
 					}
 					discharged++ // accounted for
 				} else {
-					violations++
 					path := saveCex(cfg, cexDir, r, st)
-					lines = append(lines, fmt.Sprintf("VIOLATION property=%s replay=%s", cfg.prop, path))
-					lines = append(lines, fmt.Sprintf("  harness=%s assertion=%q sat on %d of %d path instance(s); inputs=%v", r.Name, l, st.Sat, inst, st.FirstSat.Values))
+					// replay the solver's assignment against the natively compiled real code before reporting
+					verdict, note := nativeReplay(cfg, path)
+					if verdict == "not-reproduced" {
+						// the native run contradicts the solver: the encoding (or a stub) misrepresents the code here
+						inconclusive = append(inconclusive, fmt.Sprintf("%s/%s: solver counterexample did NOT reproduce natively (%s); counterexample kept in %s", r.Name, l, note, path))
+					} else {
+						violations++
+						lines = append(lines, fmt.Sprintf("VIOLATION property=%s replay=%s", cfg.prop, path))
+						lines = append(lines, fmt.Sprintf("  harness=%s assertion=%q sat on %d of %d path instance(s); inputs=%v", r.Name, l, st.Sat, inst, st.FirstSat.Values))
+						lines = append(lines, "  native replay: "+verdict+" - "+note)
+					}
 				}
 			case st.Unknown > 0:
 				inconclusive = append(inconclusive, fmt.Sprintf("%s/%s: %d of %d instance(s) undecided (%s; first on Choose path %v)", r.Name, l, st.Unknown, inst, st.FirstUnknown.Note, st.FirstUnknown.Choices))
@@ -821,6 +831,34 @@ func report(cfg *Config, results []*HarnessResult, files, pats []string, loadS, 
 
 func round2(f float64) float64 { return float64(int(f*100+0.5)) / 100 }
 
+// nativeReplay runs tools/replay.py on a saved counterexample. Verdicts: reproduced | not-reproduced | not-replayable | error
+func nativeReplay(cfg *Config, dir string) (string, string) {
+	if os.Getenv("VP_NO_REPLAY") != "" {
+		return "not-run", "VP_NO_REPLAY set"
+	}
+	script := filepath.Join(cfg.verif, "tools", "replay.py")
+	if _, err := os.Stat(script); err != nil {
+		return "not-run", "tools/replay.py missing"
+	}
+	cmd := exec.Command("python3", script, dir)
+	cmd.Env = append(os.Environ(), "VP_REPO="+cfg.repo)
+	out, _ := cmd.CombinedOutput()
+	line := strings.TrimSpace(string(out))
+	if i := strings.Index(line, "REPLAY "); i >= 0 {
+		line = line[i+len("REPLAY "):]
+	}
+	if j := strings.IndexByte(line, '\n'); j >= 0 {
+		line = line[:j]
+	}
+	os.WriteFile(filepath.Join(dir, "native_replay.txt"), out, 0o644)
+	for _, v := range []string{"reproduced", "not-reproduced-env", "not-reproduced", "not-replayable"} {
+		if strings.HasPrefix(line, v+":") {
+			return v, strings.TrimSpace(line[len(v)+1:])
+		}
+	}
+	return "error", line
+}
+
 func saveCex(cfg *Config, cexDir string, r *HarnessResult, st *AssertStat) string {
 	d := filepath.Join(cexDir, r.Name+"-"+sanitize(st.Label))
 	os.MkdirAll(d, 0o755)
@@ -830,7 +868,23 @@ func saveCex(cfg *Config, cexDir string, r *HarnessResult, st *AssertStat) strin
 			os.WriteFile(filepath.Join(d, "query.smt2"), b, 0o644)
 		}
 	}
-	m := map[string]interface{}{"property": cfg.prop, "harness": r.Name, "assertion": st.Label, "inputs": q.Values,
+	// the path's inputs in call order with the model's values (inputs the query does not mention are unconstrained: 0)
+	var seq []map[string]string
+	for _, kn := range q.InSeq {
+		i := strings.IndexByte(kn, ':')
+		v, ok := q.Model[kn[i+1:]]
+		if kn[:i] == "rcap" {
+			v, ok = kn[i+1:], true
+		}
+		if !ok {
+			v = "0"
+			if kn[:i] == "bool" || kn[:i] == "rbool" {
+				v = "false"
+			}
+		}
+		seq = append(seq, map[string]string{"kind": kn[:i], "name": kn[i+1:], "value": v})
+	}
+	m := map[string]interface{}{"property": cfg.prop, "harness": r.Name, "assertion": st.Label, "inputs": q.Values, "replay_inputs": seq, "tier": cfg.tier,
 		"model_of_pre_state_symbols": q.Model, "solver": z3Main, "cross_check": q.Cross, "sat_instances": st.Sat, "choices": q.Choices,
 		"how_to_read": "inputs are the harness's zzvp.Any*() values in call order (index:kind:smt-name); query.smt2 is the self-contained SMT-LIB query (path condition + negated assertion) that z3 answered sat"}
 	b, _ := json.MarshalIndent(m, "", " ")
